@@ -82,6 +82,9 @@ pub fn arg_bytes() -> BoxedStrategy<Vec<u8>> {
         3 => utf8_text(),
         2 => prop::collection::vec(interesting_byte(), 1..12),
         1 => utf8_text().prop_map(|mut v| { v.push(0xf8); v }),
+        // a multi-byte character cut short (1, 2 or 3 of its bytes), at the end or in the middle
+        2 => (utf8_text(), prop::sample::select(vec![&b"\xc3"[..], b"\xe2\x82", b"\xf0\x9f\x92", b"\xf0\x9f", b"\xf0", b"\xe2", b"\xed\xa0\x80", b"\xc0\x80", b"\xef\xbb\xbf"]), prop::option::of(utf8_text()))
+            .prop_map(|(mut v, cut, tail)| { v.extend_from_slice(cut); if let Some(t) = tail { v.extend_from_slice(&t); } v }),
         1 => utf8_text().prop_map(|mut v| { v.extend_from_slice(b"  "); v }),
         // arguments that *begin* with a Unicode white-space character: only leading blanks
         // (space / tab) may be stripped, these are part of the argument
@@ -98,7 +101,7 @@ fn file_line() -> BoxedStrategy<Vec<u8>> {
         6 => prop::collection::vec(interesting_byte(), 3..40),
         3 => prop::sample::select(vec!["bin/foo", "man/man1/foo.1", "a", "b", "+INSTALL", "share/doc/x y", " leading", "\tx", "lib/libfoo.so.1.0"]).prop_map(|s| s.as_bytes().to_vec()),
         // lines made only of multi-byte Unicode white space are file names like any other
-        1 => prop::sample::select(vec!["\u{3000}", "\u{a0}", "\u{2003}\u{2003}", "\u{2028}", "\u{85}", " \u{a0}", "\u{feff}"]).prop_map(|s| s.as_bytes().to_vec()),
+        1 => prop::sample::select(vec!["\u{3000}", "\u{a0}", "\u{2003}\u{2003}", "\u{2028}", "\u{85}", " \u{a0}", "\u{feff}", "\u{feff}bin/foo", "\u{feff}@name x-1", "\u{feff}\u{feff}"]).prop_map(|s| s.as_bytes().to_vec()),
         1 => prop::collection::vec(interesting_byte(), 100..600),
     ]
     .prop_map(|mut v| {
